@@ -248,6 +248,40 @@ def run(ctx):
             ok = all(p.out == "ret" and _re2.search(r"\bquit\b", p.val or "") for p in ps) and bool(ps)
             ctx.require(ok, "R08.5", "cli-unmapped-signal-quits", "the unmapped-signal branch returns quit(action) on every path", h.loc(n["l"]),
                         detail=str([(p.out, p.val) for p in ps][:3]), fail="an unmapped interrupt/terminate does not always lead to quit()")
+            # every way to a quit is one of the three documented reasons, and each reason always quits
+            from ..throttle import implies as _imp8
+            pathx.SUBST = pathx.let_substitutions(root)
+            try:
+                hps = pathx.Enum(interesting=lambda d_: False, max_paths=200000).paths(root)
+            finally:
+                pathx.SUBST = {}
+            ONCE = "^once"
+            EOFQ = "(^stdin_quit && Iterator::any(slice::iter(^action.events), closure))"
+            bad8 = []
+            n_q = 0
+            for q in hps:
+                quits = q.out == "ret" and _re2.search(r"\bquit\b", q.val or "") is not None
+                why = []
+                for e in q.ev:
+                    if e[0] == "branch" and e[2] is True:
+                        if e[1] == ONCE:
+                            why.append("once")
+                        elif e[1] == EOFQ:
+                            why.append("stdin-eof")
+                        elif e[1] == d or ("contains_key" in e[1] and "Terminate" in e[1] and "Interrupt" in e[1] and e[1].count(" || ") == 1 and e[1].count(" && ") == 2):
+                            why.append("signal")
+                        elif "stdin_quit" in e[1] or "contains_key" in e[1]:
+                            why.append("?" + e[1][:60])
+                if quits:
+                    n_q += 1
+                    if not why or any(w.startswith("?") for w in why):
+                        bad8.append("quit without one of the documented reasons: " + pathx.show_events([e for e in q.ev if e[0] == "branch"])[-200:])
+                elif why:
+                    bad8.append("reason %s does not lead to a quit" % why)
+            eofc = [c for c in facts.children(h) if c.kind == "closure" and pathx.desc(thir.peel(thir.root(c))) == "slice::contains(e.tags, Keyboard{0: Eof})"]
+            ctx.require(not bad8 and n_q >= 3 and len(eofc) == 1, "R08.5", "cli-quit-reasons", "the CLI handler quits exactly for: --once (debug), --stdin-quit with a keyboard EOF, "
+                        "an unmapped interrupt/terminate", h.loc(h.line), detail="; ".join(bad8)[:400] + " eof-closures=%d" % len(eofc),
+                        fail="the CLI action handler's reasons to quit changed: " + "; ".join(bad8)[:300])
     except Skip:
         pass
 
